@@ -5,6 +5,9 @@
 //!   `fdec enc ch=<n> code=<descriptor code> fields=<hex,..|-> payload=<hex|->` : a generated frame is written by the real
 //!        FrameEncoder (limit far above its size) and read back by the real FrameDecoder; trace
 //!        `enc=<hex> dec=<result>`; the model runs enc_frame and dec_frame;
+//!   `fdec xfer m=<M> ch=<n> fields=<..> payload=<hex>` : a transfer with a payload around 0..3 frame bodies through the real Transport bound
+//!        with max-frame-size M: trace `wire=<all bytes written> frames=<result of the real decoder per frame>`; the model runs
+//!        transfer_perfs, wire_transfer and dec_frame on each of its chunks;
 //!   `fdec dec <hex>` : bytes built here - a valid frame under another header (doff 0..4, 255; type 1, 2, 255), cut short at
 //!        every interesting place, the heartbeat frame, the descriptor by name (sym8 / sym32) or by the long ulong form,
 //!        unknown and foreign descriptors, trailing bytes after a performative that takes no payload, random bytes -
@@ -148,6 +151,10 @@ fn dec_case(bytes: &[u8], what: &str, out: &mut Outputs) {
 
 fn one(r: &mut Rng, deep: u32, out: &mut Outputs) {
     let p = typed::gen_performative(r, deep);
+    one_perf(r, p, false, out);
+}
+
+fn one_perf(r: &mut Rng, p: Performative, force_xfer: bool, out: &mut Outputs) {
     let (code, fields) = perf_fields(&p);
     if !in_model_scope(&fields) {
         out.count("skipped: field outside the value model");
@@ -191,16 +198,68 @@ fn one(r: &mut Rng, deep: u32, out: &mut Outputs) {
         }
     };
     let dec = decode(&enc);
+    // a `multiple` field holding an empty array comes back as None: not a round-trip failure
+    let normal = !fields.iter().any(|f| f[..] == [0xe0, 0x01, 0x00]);
     out.count(&format!("enc: code {}", code));
     out.nontrivial(&line);
     let expect = format!("ok ch={} code={} fields={} payload={}", ch, code, join(&fields), hexd(&payload));
-    // a `multiple` field holding an empty array comes back as None: not a round-trip failure
-    let normal = !fields.iter().any(|f| f[..] == [0xe0, 0x01, 0x00]);
     if normal && dec != expect {
         out.violation("c06-frame-roundtrip", &format!("the frame is read back as `{}`", &dec[..dec.len().min(300)]), &line);
     }
     out.case(&line, &format!("enc={} dec={}", hex(&enc), dec));
 
+    // a transfer that does not fit: the frames the real encoder cuts it into (Transport with a small limit), each read back
+    // by the real decoder - against transfer_perfs / wire_transfer / dec_frame
+    if code == 0x14 && (force_xfer || r.chance(1, 2)) {
+        let m = *r.pick(&[512usize, 513, 600, 1024]);
+        let mfb = m - 8;
+        let k = r.below(4) as usize;
+        let delta = r.range(0, 60) as i64 - 30;
+        let len = ((k * mfb) as i64 + delta).max(0) as usize;
+        let big = r.bytes(len);
+        let xline = format!("fdec xfer m={} ch={} fields={} payload={}", m, ch, join(&fields), hexd(&big));
+        let frame = Frame { channel: ch, body: body_of(p.clone(), big.clone()) };
+        let w = catch_unwind(AssertUnwindSafe(|| crate::frame::send_frame(m, frame)));
+        let line_impl = match w {
+            Ok(Ok(w)) => {
+                let mut decs: Vec<String> = Vec::new();
+                let mut parts: Vec<u8> = Vec::new();
+                let mut pos = 0usize;
+                let mut bad = false;
+                while pos + 4 <= w.len() {
+                    let sz = u32::from_be_bytes([w[pos], w[pos + 1], w[pos + 2], w[pos + 3]]) as usize;
+                    if sz < 4 || pos + sz > w.len() {
+                        bad = true;
+                        break;
+                    }
+                    let d = decode(&w[pos + 4..pos + sz]);
+                    if let Some(ph) = d.rsplit("payload=").next() {
+                        if ph != "-" && d.starts_with("ok") {
+                            parts.extend(crate::val::unhex(ph).unwrap_or_default());
+                        }
+                    }
+                    decs.push(d);
+                    pos += sz;
+                }
+                if bad || pos != w.len() {
+                    out.violation("c06-frame-roundtrip", "the wire bytes of a transfer are not a sequence of whole frames", &xline);
+                } else if normal && parts != big {
+                    out.violation("c06-frame-roundtrip", "the payload parts read back from the frames of a transfer do not concatenate to the payload", &xline);
+                }
+                out.count(&format!("xfer: {} frame(s)", decs.len().min(5)));
+                if decs.len() >= 2 {
+                    out.nontrivial(&xline);
+                }
+                format!("wire={} frames={}", hex(&w), decs.join("/"))
+            }
+            Ok(Err(_)) => "wire=ERR".to_string(),
+            Err(_) => {
+                out.violation("c06-panic", "c06-panic: the transport panics while sending a transfer", &xline);
+                "wire=PANIC".to_string()
+            }
+        };
+        out.case(&xline, &line_impl);
+    }
     // the same frame under other headers
     let body = &enc[4..];
     for (doff, ty) in [(0u8, 0u8), (1, 0), (3, 0), (4, 0), (255, 0), (2, 1), (2, 2), (2, 255)] {
@@ -298,6 +357,10 @@ pub fn run(seed: u64, n: u64, thorough: bool, _corpus: &[String], dir: &str) {
     for _ in 0..n {
         let deep = if thorough && r.chance(1, 3) { 1 } else { 0 };
         one(&mut r, deep, &mut out);
+        if r.chance(1, 3) {
+            let t = typed::gen_transfer(&mut r, deep);
+            one_perf(&mut r, Performative::Transfer(t), true, &mut out);
+        }
         if r.chance(1, 5) {
             let k = r.below(24) as usize;
             let mut b = r.bytes(k);
